@@ -43,8 +43,12 @@ CONSTANTS
   XPts,      \* function d -> sequence of integer test positions (each a sequence of length d)
   LenExp     \* exponents of the main length scale used for the radius clause
 
-Order    == "FirstAngleInnermost"   \* R = G_n * ... * G_2 * G_1  (taken from matrix_rotate)
-SignRule(k) == IF k % 2 = 1 THEN 1 ELSE -1   \* sign of the k-th angle (k = 1, 2, ...)
+(* The two clauses taken from the implementation (matrix_rotate):
+   Order: R = G_n * ... * G_2 * G_1, the first angle acts first on a point, i.e. in 3-D
+   yaw, pitch and roll turn about the FIXED axes z, y, x in this order.
+   SignRule: sign of the k-th angle (k = 1, 2, ...), "alternating signs". *)
+Order    == "FirstAngleInnermost"
+SignRule(k) == IF k % 2 = 1 THEN 1 ELSE -1
 
 VARIABLES cfg, out
 vars == <<cfg, out>>
@@ -74,7 +78,9 @@ Q4(a) == IF (4 * a[1]) % a[2] = 0 THEN (4 * a[1]) \div a[2]
          ELSE Assert(FALSE, <<"not a multiple of 1/4", a>>)
 
 -----------------------------------------------------------------------------
-(* matrices = sequences of rows; integer (I...) and rational (R...) versions *)
+(* matrices = sequences of rows; integer (I...) and rational (R...) versions.
+   TLCEval(x) = x; it only makes TLC evaluate a function constructor once
+   instead of at every application (without it the recursion is exponential). *)
 RECURSIVE ISum(_, _)
 ISum(f, n) == IF n = 0 THEN 0 ELSE f[n] + ISum(f, n - 1)
 RECURSIVE RSum(_, _)
@@ -258,7 +264,8 @@ Compute(c) ==
       ax  == MainAxes(d, qs)
       X   == ToR(XMat(d))
       IX  == RMatMul(I, X)
-  IN [ rot   |-> Flat(R),                      \* d x d integers
+  IN [ eqs   |-> qs,                           \* effective angles ("tmp": space-time planes zeroed)
+       rot   |-> Flat(R),                      \* d x d integers
        derot |-> Flat(DR),
        axes  |-> Flat(ax),                     \* row i = main axis i
        isoX  |-> FlatQ4(IX),                   \* d x (d+n), units of 1/4:  Iso * [I | X]
